@@ -68,7 +68,7 @@ def shmsim(ctx):
 
 
 def run_sched(ctx, binary, focus, count, timeout=5400):
-    parts = ctx.run_shards(binary, ["sched", "--focus", focus, "--seed", str(ctx.seed), "--count", str(count)], NPROC, timeout)
+    parts = ctx.run_shards(binary, ["sched", "--focus", focus, "--seed", str(ctx.seed), "--count", str(count), "--signals", "1" if ctx.quick() else "2"], NPROC, timeout)
     return merge_sched(parts)
 
 
